@@ -46,6 +46,7 @@ static void warmup(cfg_t c) {
  *   f decode_cleanup
  *   R reconstruct a missing fragment      r reconstruct with an out-of-range destination
  *   N fragments_needed                    M get_fragment_metadata + is_invalid_fragment + verify_stripe
+ *   H / h decode / reconstruct meeting an accepted header with an orig_data_size that is negative as an int
  *   L encode of a length beyond the int size arithmetic (refused), output variables holding stale pointers
  * followed by <pat>: the set of fragments withheld by S, U and R (bit mask; between 1 and tolerance
  * fragments, a data fragment among them); R rebuilds the lowest withheld fragment.
@@ -105,6 +106,54 @@ static void run_ledger(void *va, FILE *out) {
                 mt_off(); for (int i = 0; i < nb; i++) free(bufs[i]); nb = 0; mt_on();
             }
             break;
+        case 'H': case 'h':
+            /* an accepted (re-sealed) header whose orig_data_size is negative as an int, met after a buffer has
+               already been set up for an earlier missing / unaligned fragment: decode (H) and reconstruct (h) fail */
+            if (have_enc && !od && c.k + c.m >= 3) {
+                int n = 0; nb = 0;
+                mt_off();
+                for (int i = 1; i < c.k + c.m; i++) {
+                    char *f = i < c.k ? ed[i] : ep[i - c.k];
+                    if (i == 1) {
+                        /* fragment 0 is withheld (a buffer is set up for it first); the first fragment present carries the bad size */
+                        unsigned char *b = NULL; if (posix_memalign((void **)&b, 16, flen + 32)) abort();
+                        unsigned char *p = b + (L->pat % 2 ? 5 : 0);     /* sometimes unaligned as well */
+                        memcpy(p, f, flen);
+                        { uint64_t o = (L->pat % 3) ? (1ull << 31) : 0xffffffffull; memcpy(p + 12, &o, 8); reseal(p); }
+                        bufs[nb++] = b; f = (char *)p;
+                    }
+                    work[n++] = f;
+                }
+                mt_on();
+                if (call == 'H') { rc = liberasurecode_decode(desc, work, n, flen, 0, &od, &ol); if (rc != 0) od = NULL; else { liberasurecode_decode_cleanup(desc, od); od = NULL; } }
+                else { mt_off(); char *of = malloc(flen); mt_on(); rc = liberasurecode_reconstruct_fragment(desc, work, n, flen, 0, of); mt_off(); free(of); mt_on(); }
+                mt_off(); for (int i = 0; i < nb; i++) free(bufs[i]); nb = 0; mt_on();
+            }
+            break;
+        case 'G': case 'g':
+            /* fragments of a stripe of another (larger-k) instance of the same backend handed to this one: whatever the
+               call answers, nothing stays allocated once a success has been cleaned up */
+            if (desc > 0 && !od) {
+                mt_off();
+                struct ec_args fa; memset(&fa, 0, sizeof fa);
+                if (c.be == 3) { fa.k = c.k == 10 ? 12 : 10; fa.m = 6; fa.hd = 4; } else { fa.k = c.k + 2; fa.m = c.m ? c.m : 1; fa.hd = fa.m; }
+                fa.ct = CHKSUM_CRC32;
+                int fd = liberasurecode_instance_create((ec_backend_id_t)c.be, &fa);
+                char **fed = NULL, **fep = NULL; uint64_t ffl = 0; int frc = -1;
+                if (fd > 0) frc = liberasurecode_encode(fd, (char *)data, 157, &fed, &fep, &ffl);
+                mt_on();
+                if (frc == 0) {
+                    int n = 0; for (int i = (call == 'G' ? 0 : 1); i < fa.k && n < 70; i++) work[n++] = fed[i];
+                    for (int i = 0; i < fa.m && n < 70; i++) work[n++] = fep[i];
+                    if (call == 'G') { char *o2 = NULL; uint64_t l2 = 0; rc = liberasurecode_decode(desc, work, n, ffl, (int)(L->pat & 1), &o2, &l2); if (rc == 0) liberasurecode_decode_cleanup(desc, o2); }
+                    else { mt_off(); char *of = malloc(ffl); mt_on(); rc = liberasurecode_reconstruct_fragment(desc, work, n, ffl, 0, of); mt_off(); free(of); mt_on(); }
+                }
+                mt_off();       /* the foreign instance and its stripe were made with tracking off: they are outside the ledger */
+                if (frc == 0) liberasurecode_encode_cleanup(fd, fed, fep);
+                if (fd > 0) liberasurecode_instance_destroy(fd);
+                mt_on();
+            }
+            break;
         case 'f': if (od) { liberasurecode_decode_cleanup(desc, od); od = NULL; } break;
         case 'R': case 'r':
             if (have_enc) {
@@ -149,7 +198,7 @@ void suite_ledger(int tier) {
         /* sanitizer build: the same histories run for their side effects (ASan: use after free,
            double free, overflow; LeakSanitizer at exit) */
     }
-    const char *alphabet = "CXDEecFSUIBVfRrNML";
+    const char *alphabet = "CXDEecFSUIBVfRrNMLHhGg";
     int na = (int)strlen(alphabet);
     cfg_t cfgs[] = { {6,4,2,2,2}, {6,1,1,1,2}, {3,5,5,3,2}, {3,10,6,4,2}, {0,3,2,2,2}, {6,10,4,4,2} };
     int nh = tier ? 400 : 50;
@@ -292,7 +341,7 @@ static void run_fault(void *va, FILE *out) {
 
 /* natural failures: no stub — the backend's own code fails (unsupported shape inside init, erasure set
    beyond what the code can repair) */
-typedef struct { int be, k, m, hd; uint64_t mask; } natfail_t;
+typedef struct { int be, k, m, hd; uint64_t mask; int dsel; } natfail_t;
 static void run_natfail(void *va, FILE *out) {
     natfail_t *N = va;
     unsigned char data[97]; for (int i = 0; i < 97; i++) data[i] = (unsigned char)(i * 7 + 1);
@@ -317,7 +366,7 @@ static void run_natfail(void *va, FILE *out) {
         if (rc != 0) { fprintf(out, "c=0 e=err %d held=%ld", rc, mt_available() ? mt_blocks() - before - 0 : 0); }
         else {
             int n = N->k + N->m; char *fr[80]; int cnt = 0, dest = 0, have = 0;
-            for (int i = 0; i < n; i++) { if ((N->mask >> i) & 1) { if (!have) { dest = i; have = 1; } } else fr[cnt++] = i < N->k ? ed[i] : ep[i - N->k]; }
+            for (int i = 0; i < n; i++) { if ((N->mask >> i) & 1) { if (!have || N->dsel) { dest = i; have = 1; } } else fr[cnt++] = i < N->k ? ed[i] : ep[i - N->k]; }   /* dsel: the highest missing index (a parity when one is missing) */
             long b0 = mt_blocks();
             char *od = NULL; uint64_t ol = 0;
             int rd = liberasurecode_decode(desc, fr, cnt, fl, 0, &od, &ol);
@@ -343,12 +392,13 @@ static void run_natfail(void *va, FILE *out) {
     LEAK_CHECK(real_out);
 }
 
-static void natfail_emit(int be, int k, int m, int hd, uint64_t mask) {
-    natfail_t N = { be, k, m, hd, mask };
-    op_begin("natfail %d %d %d %d %llu", be, k, m, hd, (unsigned long long)mask); op_sep();
+static void natfail_emit2(int be, int k, int m, int hd, uint64_t mask, int dsel) {
+    natfail_t N = { be, k, m, hd, mask, dsel };
+    op_begin("natfail %d %d %d %d %llu %d", be, k, m, hd, (unsigned long long)mask, dsel); op_sep();
     guarded(run_natfail, &N);
     stat_add("fault.natural", 1);
 }
+static void natfail_emit(int be, int k, int m, int hd, uint64_t mask) { natfail_emit2(be, k, m, hd, mask, 0); }
 
 void suite_fault(int tier) {
     /* shapes the backend's own init refuses */
@@ -366,6 +416,10 @@ void suite_fault(int tier) {
             int cnt = hd + (int)rnd(m - hd + 1); uint64_t g = 0; int have = 0;
             while (have < cnt) { int i = (int)rnd(q == 0 ? k : k + m); if (!((g >> i) & 1)) { g |= 1ull << i; have++; } }
             natfail_emit(3, k, m, hd, g);
+            /* a parity destination with data of its equation missing as well */
+            { uint64_t g2 = (g & ((1ull << k) - 1)) | (1ull << (k + rnd(m))); int c2 = __builtin_popcountll(g2);
+              while (c2 < hd) { int i = (int)rnd(k + m); if (!((g2 >> i) & 1)) { g2 |= 1ull << i; c2++; } }
+              natfail_emit2(3, k, m, hd, g2, 1); }
         }
     }
     natfail_emit(6, 4, 2, 2, 0x7); natfail_emit(6, 4, 2, 2, 0x31); natfail_emit(0, 3, 2, 2, 0x3);
@@ -429,6 +483,16 @@ static void run_pure(void *va, FILE *out) {
             fragment_metadata_t md;
             if (liberasurecode_get_fragment_metadata(fr[i], &md) != 0) bad++;
             if (is_invalid_fragment(s->desc, fr[i])) bad++;
+            /* the same fragment as an opposite-byte-order writer stores it, also ending at the guard page:
+               the metadata query accepts it and reads no further than header + payload */
+            unsigned char *tw = malloc(s->flen); memcpy(tw, fr[i], s->flen); make_twin(tw);
+            guard_t g = guard_make(tw, s->flen); free(tw);
+            if (g_progress) snprintf(g_progress, 200, "in get_fragment_metadata of an opposite-byte-order fragment ending at a guard page (be=%d ct=%d)", s->c.be, s->c.ct);
+            fragment_metadata_t md2;
+            if (liberasurecode_get_fragment_metadata((char *)g.p, &md2) != 0 || md2.chksum_mismatch != md.chksum_mismatch || md2.size != md.size || md2.orig_data_size != md.orig_data_size) bad++;
+            (void)is_invalid_fragment(s->desc, (char *)g.p);
+            if (g_progress) g_progress[0] = 0;
+            guard_free(&g);
         }
         if (liberasurecode_verify_stripe_metadata(s->desc, fr, n) != 0) bad++;
         fprintf(out, bad ? "DIFFERENT" : "same");
@@ -474,6 +538,30 @@ static void run_pure_sweep(void *va, FILE *out) {
     for (int i = 0; i < s.n; i++) guard_free(&gs[i]);
     if (g_progress) g_progress[0] = 0;
     fprintf(out, "same");
+}
+
+/* decode / reconstruct told that the fragments are `len` bytes long (shorter than a header), the buffers being
+   exactly that long and ending at an unmapped page: refused without reading beyond what was given */
+typedef struct { cfg_t c; size_t len; } pshort_a;
+static void run_pure_short(void *va, FILE *out) {
+    pshort_a *a = va; cfg_t c = a->c;
+    stripe_t s;
+    if (stripe_make(&s, c, 100, 0, 0) != 0) { fprintf(out, "err encode"); return; }
+    char *fr[80];
+    for (int i = 0; i < s.n; i++) {
+        unsigned char *map = mmap(NULL, 8192, PROT_READ | PROT_WRITE, MAP_PRIVATE | MAP_ANONYMOUS, -1, 0);
+        fr[i] = (char *)map + 4096 - a->len;
+        memcpy(fr[i], s.all[i], a->len);
+        mprotect(map, 4096, PROT_READ); mprotect(map + 4096, 4096, PROT_NONE);
+    }
+    if (g_progress) snprintf(g_progress, 200, "in decode/reconstruct with fragment_len=%zu and read-only buffers of exactly that size, be=%d", a->len, c.be);
+    char *od = NULL; uint64_t ol = 0;
+    int r1 = liberasurecode_decode(s.desc, fr, s.n, a->len, 0, &od, &ol);
+    int r2 = liberasurecode_decode(s.desc, fr + 1, s.n - 1, a->len, 1, &od, &ol);
+    char of[256];
+    int r3 = liberasurecode_reconstruct_fragment(s.desc, fr + 1, s.n - 1, a->len, 0, of);
+    if (g_progress) g_progress[0] = 0;
+    fprintf(out, (r1 < 0 && r2 < 0 && r3 < 0) ? "same" : "DIFFERENT accepted %d %d %d", r1, r2, r3);
 }
 
 static void *thread_encode(void *va) {
@@ -573,6 +661,18 @@ void churn(const char *prop, int tier, int rs_only) {
 
 void suite_pure(int tier) {
     for (int r = 0; r < (tier ? 12 : 3); r++) churn("C15", tier, 0);
+    /* fragment lengths below a header, buffers really that short */
+    {
+        static const cfg_t cs[] = { {6,4,2,2,2}, {3,5,5,3,1}, {0,3,2,2,1} };
+        static const size_t lens[] = { 0, 1, 4, 20, 40, 58, 59, 62, 63, 66, 67, 70, 71, 79 };
+        for (unsigned ci = 0; ci < 3; ci++) for (unsigned li = 0; li < sizeof lens / sizeof lens[0]; li++) {
+            if (!tier && ci && (li % 3)) continue;
+            pshort_a a = { cs[ci], lens[li] };
+            op_begin("pure short %d %d %d %zu", cs[ci].be, cs[ci].k, cs[ci].m, lens[li]); op_sep();
+            guarded(run_pure_short, &a);
+            stat_add("pure.short_fragments", 1);
+        }
+    }
     /* read-only inputs over every erasure set */
     {
         static const cfg_t base[] = { {3,6,5,4,2}, {3,10,6,4,1}, {3,5,5,3,2}, {6,4,2,2,2}, {6,3,3,3,1}, {3,12,6,4,2}, {3,6,6,4,1}, {3,10,5,3,2} };
